@@ -1,7 +1,8 @@
 (* Property C09 - Garbage collection never changes what a program computes.
    Only statements, `exact`, Print Assumptions.
    Model and proofs: AV.Store.Gc / AV.Store.GcFacts (abstract heap, mutator language, mark from
-   the variables + sweep; shared with C10), AV.GcSched (the schedules of the hook ALDOR_VERIF_GC).
+   the variables + sweep; shared with C10), AV.GcSched.Model/Facts (the schedules of the hook
+   ALDOR_VERIF_GC), AV.GcSched.Junk (clearing dead variable slots before a collection: fintFreeJunk).
 
    FULL STATEMENT OF C09 (not provable here; the real-program part is explored by props/c09.py):
      for every Aldor program P, every route r in {aldor -ginterp, gcc-built executable + libfoam},
